@@ -270,6 +270,13 @@ func NewWorld(r *Rng, o WorldOpts) *GenWorld {
 	}
 	for d := 0; d < o.Decoys; d++ {
 		name := fmt.Sprintf("%sdecoy%d.tsh", r.Pick(dirs[:3]), d)
+		if r.Chance(35) {
+			// confusable names: a stale copy next to a real file, a name close to a std library
+			name = r.Pick([]string{"h1.tsh.bak", "h1.tsh~", "H1.TSH", "main.tsh.orig", "string.tsh", "std/strings.tsh", "lib/strings", "os.tsh.txt", ".h1.tsh.swp"})
+			if w.Get(name) != nil {
+				name = fmt.Sprintf("decoy%d.tsh", d)
+			}
+		}
 		src, _ := GenProgram(r.Sub(), RandomFeat(r), nil, fmt.Sprintf("_d%d_", d))
 		w.Files = append(w.Files, WFile{name, []byte(src)})
 		w.Decoys = append(w.Decoys, name)
